@@ -213,7 +213,7 @@ void AsyncSim::ha_on_returned(KSI_AsyncHandle *h, size_t waiting) {
 ConfVals AsyncSim::ha_expected_conf() {
 	ConfVals x;
 	for (auto &f : frames) {
-		if (f.bad || !f.info.has_conf || f.arrive_seq == 0) continue;
+		if (f.bad || !f.info.has_conf || f.arrive_seq == 0 || !frame_of_current_service(f)) continue;
 		const RespInfo &i = f.info;
 		bool auth = i.authentic(eps[f.ep].cfg.mac_alg) && i.ver == eps[f.ep].cfg.pdu_ver;
 		if (!auth) continue;
@@ -253,7 +253,7 @@ void AsyncSim::ha_final_checks() {
 	// consolidation
 	bool all_read = true;
 	int pushes = 0;
-	for (auto &f : frames) if (!f.bad && f.info.has_conf) {
+	for (auto &f : frames) if (!f.bad && f.info.has_conf && frame_of_current_service(f)) {
 		pushes++;
 		if (f.conn >= 0 && f.read_seq == 0) all_read = false;
 		if (f.xfer >= 0) {
